@@ -136,6 +136,7 @@ def run(ctx, res, nrandom):
             res.corr_broken.append("capacity arithmetic: model and implementation differ at op %d '%s': model=%r impl=%r\n%s" % (
                 diff, ops[diff] if diff < len(ops) else "?", ml[diff] if diff < len(ml) else None,
                 il[diff] if diff < len(il) else None, text[:400]))
+    res.distinct += len(set("\n".join(c) for c in cases))
     res.distribution["mem_scripts"] = len(cases)
     res.distribution["mem_ops"] = nops
     return len(cases)
